@@ -179,6 +179,9 @@ def one_run(rec, lib, rnd, d, dir_mode, st, inproc):
         f.write("not a stylesheet\n")
     before = clirun.snapshot(d)
     target_arg = (prefix or ".") if dir_mode else ("./" + os.path.join(prefix, single_name))
+    if rnd.random() < 0.2:
+        target_arg = os.path.join(d, target_arg)     # absolute path argument
+        rec.count("absolute_path_arguments")
     args = c08.cli_args(target_arg, st)
     case = {"files": {rel: s.text for rel, s in files.items()}, "settings": st, "dir_mode": dir_mode, "arg": target_arg}
     if prefix:
